@@ -362,9 +362,9 @@ def payload_to_json(ty, v, model=None):
     if ty == "data":
         return {"data": data_to_json(ev(v))}
     if ty in ("g1", "g2"):
-        name = str(ev(v))
-        if not name.startswith(ty + "_"):
-            raise NotConcrete(name)
+        name = str(v)  # only literal group elements (named after their compressed hex) can be written back
+        if not (z3.is_const(v) and name.startswith(ty + "_")):
+            raise NotConcrete(name[:80])
         return {ty: name[3:]}
     if ty == "ml":
         return {"ml": None}
